@@ -182,3 +182,138 @@ def gen_general(rng, focus="general"):
     for c in clusters:
         fetch_all(c)
     return h
+
+
+def gen_lag(rng, flavour="mix"):
+    """C01 generator (DESIGN 4.1): broker offsets and commits around a boundary pool, consumer ahead of the broker,
+    partition counts growing, out-of-order / duplicate commits, a fetch after most changes.
+    flavour: mix | extreme (int64 extremes on both sides) | ahead (consumer mostly ahead) | moving (broker moves between commits)."""
+    intervals = rng.choice([1, 2, 3, 4, 10])
+    expire = rng.choice([1000, 604800])
+    mindist = rng.choice([0, 0, 0, 0, 1, 5])
+    clusters = [1] if rng.random() < 0.7 else [1, 2]
+    h = Hist(rng, intervals, expire, mindist, clusters, "deny", set())
+    topics = list(range(1, rng.choice([1, 1, 2, 3, 4]) + 1))
+    groups = list(range(1, rng.choice([1, 1, 2, 3]) + 1))
+    pcount, boff, order = {}, {}, {}
+    walk_base = rng.choice([0, 5, 1000, 10**9, 2**40, 2**62 - 3, I64MAX - 2000, -5, I64MIN + 7])
+    nops = rng.randrange(6, 40)
+    h.tags.add("lag:" + flavour)
+
+    def clamp(v):
+        return max(I64MIN, min(I64MAX, v))
+
+    def pool(b):
+        return [0, 1, b - 1, b, b + 1, 2**62, I64MAX, -1, I64MIN]
+
+    def broker(c=None, t=None, p=None):
+        c = c if c is not None else rng.choice(clusters)
+        t = t if t is not None else rng.choice(topics)
+        cnt = pcount.get((c, t), 0)
+        if cnt == 0 or rng.random() < 0.2:
+            cnt = min(5, cnt + rng.choice([1, 1, 2]))      # partition count grows over time
+            h.tags.add("count-grows")
+        pcount[(c, t)] = cnt
+        if p is None or p >= cnt:
+            p = rng.randrange(0, cnt)
+        cur = boff.get((c, t, p))
+        r = rng.random()
+        if cur is None:
+            off = walk_base + rng.choice([0, 1, 7, 100])
+        elif flavour == "extreme" and r < 0.5 or r < 0.12:
+            off = rng.choice(pool(cur))
+            h.tags.add("broker-pool")
+        elif r < 0.2:
+            off = cur - rng.choice([1, 10, 1000])            # broker offset going backwards (truncation)
+            h.tags.add("broker-back")
+        else:
+            off = cur + rng.choice([0, 1, 1, 10, 1000, 10**6])
+        off = clamp(off)
+        boff[(c, t, p)] = off
+        h.add("B", h.now, c, t, p, cnt, off)
+
+    def commit(c=None, g=None, t=None, p=None):
+        c = c if c is not None else rng.choice(clusters)
+        g = g if g is not None else rng.choice(groups)
+        t = t if t is not None else rng.choice(topics)
+        cnt = pcount.get((c, t), 0)
+        if p is None:
+            p = rng.randrange(0, cnt) if cnt > 0 and rng.random() < 0.93 else rng.choice([0, 1, 4, 5, -1])
+        key = (c, g, t, p)
+        nxt = order.get(key, rng.randrange(0, 100))
+        r = rng.random()
+        if r < 0.68:
+            o = nxt
+            order[key] = nxt + rng.choice([1, 1, 2, 5])
+        elif r < 0.88:
+            o = nxt - rng.choice([1, 2, 3, 4, 6, 12])        # out of order
+            h.tags.add("out-of-order")
+        else:
+            o = nxt - 1                                      # duplicate of the newest
+            h.tags.add("duplicate")
+        b = boff.get((c, t, p), walk_base)
+        r = rng.random()
+        if flavour == "ahead" and r < 0.7:
+            off = b + rng.choice([1, 2, 10, 1000, 2**40])
+        elif flavour == "extreme" and r < 0.6 or r < 0.25:
+            off = rng.choice(pool(b))
+            h.tags.add("commit-pool")
+        else:
+            off = b + rng.choice([-10**6, -1000, -10, -2, -1, 0, 0, 1, 2, 5])
+        off = clamp(off)
+        if off > b:
+            h.tags.add("consumer-ahead")
+        elif off == b:
+            h.tags.add("consumer-at")
+        ts = h.now * 1000 - rng.choice([0, 0, 1, 500, 999, 1000, 1001, 4999, 5000, 5001])
+        h.add("C", h.now, c, g, t, p, off, o, ts)
+        return c, g
+
+    for c in clusters:
+        for t in topics:
+            if rng.random() < 0.8:
+                broker(c, t)
+    for _ in range(nops):
+        if rng.random() < 0.4:
+            h.now += rng.choice([0, 1, 1, 2, 5, 30])
+        r = rng.random()
+        if r < 0.30:
+            broker()
+        elif r < 0.80:
+            if flavour == "moving" and rng.random() < 0.5 and boff:
+                # broker moves between two commits of the same partition
+                (c, t, p) = rng.choice(sorted(boff))
+                g = rng.choice(groups)
+                commit(c, g, t, p)
+                broker(c, t, p)
+                commit(c, g, t, p)
+                h.tags.add("broker-between-commits")
+            else:
+                commit()
+        elif r < 0.95:
+            h.add("FX", h.now, rng.choice(clusters), rng.choice(groups))
+        else:
+            k = rng.random()
+            c = rng.choice(clusters)
+            if k < 0.3:
+                h.add("DT", h.now, c, rng.choice(topics))
+                t_ = int(h.ops[-1].split()[-1])
+                pcount.pop((c, t_), None)
+                for key in [x for x in boff if x[0] == c and x[1] == t_]:
+                    del boff[key]
+                h.tags.add("delete-topic")
+            elif k < 0.55:
+                h.add("DG", h.now, c, rng.choice(groups), rng.choice([0] + topics))
+                h.tags.add("delete-group")
+            elif k < 0.8:
+                t_ = rng.choice(topics)
+                cnt = pcount.get((c, t_), 0)
+                h.add("O", h.now, c, rng.choice(groups), t_, rng.randrange(0, cnt) if cnt else 0, rng.choice([1, 2]), rng.choice([0, 1]))
+                h.tags.add("owner")
+            else:
+                h.now += h.expire + rng.choice([-1, 0, 1])
+                h.tags.add("expiry-jump")
+    for c in clusters:
+        for g in groups:
+            h.add("FX", h.now, c, g)
+    return h
